@@ -200,7 +200,9 @@ class HamiltonianCanonical(
             )
 
     def validate_simulation(self) -> None:
-        """This method also ensures that the momenta remembered by the context are the current ones."""
+        """This method also ensures that the momenta and the kinetic energy remembered by
+        the context are the current ones."""
         self.context.last_momenta = self.atoms.get_momenta()
+        self.context.last_kinetic_energy = self.atoms.get_kinetic_energy()  # type: ignore[ase]
 
         super().validate_simulation()
